@@ -103,15 +103,19 @@ def result_handler(repo: Repo) -> Tuple[List[str], List[str], ast.FunctionDef]:
     fn = ev.func("result")
     caught: List[str] = []
     keys: List[str] = []
+    from .model import deref
+
     for n in ast.walk(fn):
         if isinstance(n, ast.ExceptHandler) and n.type is not None:
-            elts = n.type.elts if isinstance(n.type, ast.Tuple) else [n.type]
+            htype = deref(ev, n.type, None, fn)
+            elts = htype.elts if isinstance(htype, ast.Tuple) else [htype]
             caught += [(dotted(e) or "?").split(".")[-1] for e in elts]
             for m in ast.walk(n):
-                if isinstance(m, ast.Subscript) and isinstance(m.value, ast.Dict):
+                table = deref(ev, m.value, None, fn) if isinstance(m, ast.Subscript) else None
+                if isinstance(m, ast.Subscript) and isinstance(table, ast.Dict):
                     sl = ast.unparse(m.slice)
                     if "__class__" in sl or sl.startswith("type("):
-                        keys += [(dotted(k) or "?").split(".")[-1] for k in m.value.keys if k is not None]
+                        keys += [(dotted(k) or "?").split(".")[-1] for k in table.keys if k is not None]
     if not caught:
         raise AnchorMissing("evaluation.result: no except clause")
     return caught, keys, fn
